@@ -104,7 +104,7 @@ impl Property for C11 {
         "C11"
     }
     fn rule(&self) -> &'static str {
-        "Shaders declaring resource variables for a list of (@group,@binding) pairs: all sequences of length 0-3 (quick) / 0-4 (thorough) over groups {0,1,2} x bindings {0,1}, plus seeded random lists of length 1-9 with gaps, groups not starting at 0, non-adjacent duplicates, unordered declarations and u32 extremes (4294967295), mixed resource kinds, each with validation off and on; oracle = direct evaluation on the pair list read from the shader text: first repeated pair -> Err(DuplicateBinding{its binding}) (or the validator's error when validation is on), else groups != 0..n-1 -> Err(NonConsecutiveBindGroups), else Ok with every declared binding exactly once in its own group's LAYOUT_DESCRIPTOR and from_bindings under its own variable name; never a panic."
+        "Shaders declaring resource variables for a list of (@group,@binding) pairs: all sequences of length 0-3 (quick) / 0-4 (thorough) over groups {0,1,2} x bindings {0,1}, plus seeded random lists of length 1-9 with gaps, groups not starting at 0, non-adjacent duplicates, unordered declarations and u32 extremes (4294967295), plus lists with 11-16 dense groups (two-digit group indices; also with one group missing or a repeated slot in a group >= 10), mixed resource kinds, each with validation off and on; oracle = direct evaluation on the pair list read from the shader text: first repeated pair -> Err(DuplicateBinding{its binding}) (or the validator's error when validation is on), else groups != 0..n-1 -> Err(NonConsecutiveBindGroups), else Ok with every declared binding exactly once in its own group's LAYOUT_DESCRIPTOR and from_bindings under its own variable name; never a panic."
     }
 
     fn cases(&self, seed: u64, tier: Tier) -> Vec<Case> {
@@ -168,6 +168,34 @@ impl Property for C11 {
                 rng.shuffle(&mut l);
             }
             lists.push((format!("rnd{i}"), l));
+        }
+        // many groups (two-digit group indices): 11-16 dense groups of 1-2 bindings in shuffled declaration order,
+        // also with one group missing (-> NonConsecutiveBindGroups) or one slot of a high group repeated (-> DuplicateBinding)
+        let n_many = if tier == Tier::Quick { 12 } else { 96 };
+        for i in 0..n_many {
+            let mut rng = Rng::new(seed, 0xC11_A000 + i as u64);
+            let ng = rng.range(11, 16) as u32;
+            let mut l: Vec<(u32, u32)> = vec![];
+            for g in 0..ng {
+                let b = rng.below(4) as u32;
+                l.push((g, b));
+                if rng.chance(1, 4) {
+                    l.push((g, b + 1 + rng.below(3) as u32));
+                }
+            }
+            let mode = i % 3;
+            if mode == 1 {
+                // drop one group that is not the last one (the rest is then not 0..n-1)
+                let gone = rng.below(ng as usize - 1) as u32;
+                l.retain(|p| p.0 != gone);
+            }
+            rng.shuffle(&mut l);
+            if mode == 2 {
+                let high: Vec<(u32, u32)> = l.iter().copied().filter(|p| p.0 >= 10).collect();
+                let d = *rng.pick(&high);
+                l.push(d);
+            }
+            lists.push((format!("many{i}/groups={ng}/mode={mode}"), l));
         }
         let mut out = vec![];
         for (k, (name, l)) in lists.iter().enumerate() {
